@@ -146,6 +146,27 @@ def r3_status_mapping(chk: Check):
             return "fall"
         return None
 
+    # table-driven form: return TABLE.get(self.origin.state, default) with TABLE a literal {JobState.X: DependencyStatus.Y}
+    rets = [x for x in body_walk(f.node) if isinstance(x, ast.Return)]
+    if len(rets) == 1 and isinstance(rets[0].value, ast.Call) and tail(rets[0].value) == "get" and len(rets[0].value.args) in (1, 2) and src(rets[0].value.args[0]) == "self.origin.state":
+        call = rets[0].value
+        tname = (dotted(call.func.value) or "").split(".")[-1]
+        table = None
+        for scope in ([f.cls.node] if f.cls is not None else []) + [f.module.tree]:
+            for st_ in scope.body:
+                if isinstance(st_, ast.Assign) and any(isinstance(t, ast.Name) and t.id == tname for t in st_.targets) and isinstance(st_.value, ast.Dict):
+                    table = st_.value
+                    break
+            if table is not None:
+                break
+        writers = [ff.key for ff in tree.nontest_funcs() for x in ast.walk(ff.node) if isinstance(x, (ast.Subscript, ast.Attribute)) and isinstance(x.ctx, (ast.Store, ast.Del)) and tname in src(x)]
+        if table is not None and not writers:
+            got = {src(k): src(v) for k, v in zip(table.keys, table.values)}
+            default = src(call.args[1]) if len(call.args) == 2 else "None"
+            ok = got == {"JobState.DONE": "DependencyStatus.OK", "JobState.ERROR": "DependencyStatus.FAIL"} and default == "DependencyStatus.WAIT"
+            chk.require(ok, chk.fkey(f, "status table"), f"JobDependency.status maps {got} (default {default}); expected DONE -> OK, ERROR -> FAIL, anything else -> WAIT "
+                        "(a dependency is satisfied only by a successfully finished upstream job)", chk.loc(f.module, f.node))
+            return
     want = {(True, False): "return DependencyStatus.OK", (False, True): "return DependencyStatus.FAIL", (False, False): "return DependencyStatus.WAIT"}
     for (d, e), w in want.items():
         outs = walk_table(g, g.entry, classify, {"done": d, "error": e}, lambda n: [], stop)
